@@ -268,6 +268,23 @@ fn cases(tier: Tier) -> Vec<FarmCase> {
         ("S: 'a' : crate::ut::T [ 'b'@x : crate::ut::T ] { 'c' };", vec!["a", "b", "c"], vec![]),
         ("S: A^ B;\nA: 'a';\nB: { 'b' };", vec!["a", "b"], vec![("a", "clip"), ("b", "rep")]),
         ("S: { A };\nA: 'a'^ | 'b' [ 'c'^ ];", vec!["a", "b", "c"], vec![("a", "clip"), ("b", "plain"), ("c", "clip")]),
+        // repetitions / optionals directly inside each other, with distinguishable items
+        ("S: { { N } ';' };\nN: 'a' | 'b';", vec!["a", "b", ";"], vec![]),
+        ("S: { { ( 'a' | 'b' ) } 'c' };", vec!["a", "b", "c"], vec![]),
+        ("S: [ { [ 'a' ] 'b' } 'c' ] 'd';", vec!["a", "b", "c", "d"], vec![]),
+        ("S: { [ 'a' | 'b' ] 'c' };", vec!["a", "b", "c"], vec![]),
+        ("S: { A } { B };\nA: 'a' 'x';\nB: 'b' | 'c';", vec!["a", "x", "b", "c"], vec![]),
+        ("S: { ( { 'a' } 'b' | 'c' ) };", vec!["a", "b", "c"], vec![]),
+        // productions whose only members are clipped non-terminals; clipped non-terminals inside optionals / repetitions
+        ("S: 'a' Sep 'b';\nSep: Comma^;\nComma: ',';", vec!["a", "b", ","], vec![("a", "plain"), ("b", "plain"), (",", "clip")]),
+        ("S: 'a' { Sep^ 'b' };\nSep: ',';", vec!["a", "b", ","], vec![("a", "plain"), (",", "clip")]),
+        ("S: A^ B^;\nA: 'a';\nB: 'b' | ;", vec!["a", "b"], vec![("a", "clip"), ("b", "clip")]),
+        ("S: [ A^ ] 'b';\nA: 'a' { 'a' };", vec!["a", "b"], vec![("a", "clip"), ("b", "plain")]),
+        ("S: A;\nA: B^ | 'c';\nB: 'b';", vec!["b", "c"], vec![("b", "clip"), ("c", "plain")]),
+        ("S: 'a'^ 'b'^;", vec!["a", "b"], vec![("a", "clip"), ("b", "clip")]),
+        // left recursion (LALR only; rejected for LL)
+        ("S: L;\nL: L 'a' | 'b';", vec!["a", "b"], vec![]),
+        ("S: L;\nL: L ',' I | I;\nI: 'a' | 'b';", vec!["a", "b", ","], vec![]),
     ];
     for lalr in [false, true] {
         let gt = if lalr { "%grammar_type 'LALR(1)'\n" } else { "" };
@@ -547,8 +564,9 @@ fn c23_module(idx: usize, m: &Module, acc: &Acc) {
             acc.violation(mkv("ast_tokens_differ_from_input", format!("{short} input {input:?}: AST contains the tokens {got:?}, the non-clipped input tokens are {want:?}; AST: {}", out[0].chars().take(300).collect::<String>())));
             return;
         }
-        if case.roles.is_empty() && got.len() != toks.len() && !case.par.contains('^') {
-            acc.violation(mkv("ast_token_count_differs_from_input", format!("{short} input {input:?}: AST contains {} tokens, the input {}", got.len(), toks.len())));
+        if case.roles.is_empty() && !case.par.contains('^') && got != toks {
+            let class = if got.len() != toks.len() { "ast_token_count_differs_from_input" } else { "ast_tokens_differ_from_input" };
+            acc.violation(mkv(class, format!("{short} input {input:?}: AST contains the tokens {got:?}, the input tokens are {toks:?}; AST: {}", out[0].chars().take(300).collect::<String>())));
             return;
         }
         // optional parts: Some(..) count
